@@ -162,15 +162,24 @@ def load_known(prop: str) -> list[dict]:
 	return [e for e in data.get('findings', []) if e.get('property') == prop]
 
 
-def match_known(entries: list[dict], sig: str) -> dict | None:
+def case_text(case) -> str:
+	if isinstance(case, dict) and isinstance(case.get('source'), str):
+		return case['source']
+	return json.dumps(case, sort_keys=True, default=repr)
+
+
+def match_known(entries: list[dict], sig: str, case=None) -> dict | None:
+	"""A failure is a listed finding only if its signature matches AND (when the entry has `case_regex`) the failing input itself
+	contains the listed construct — a signature alone (e.g. any value mismatch) must never silence a different violation."""
 	import re
 	for e in entries:
 		if e.get('status') != 'known':
 			continue  # fixed entries suppress nothing
-		if 'sig' in e and e['sig'] == sig:
-			return e
-		if 'sig_regex' in e and re.fullmatch(e['sig_regex'], sig):
-			return e
+		if not (('sig' in e and e['sig'] == sig) or ('sig_regex' in e and re.fullmatch(e['sig_regex'], sig))):
+			continue
+		if 'case_regex' in e and (case is None or not re.search(e['case_regex'], case_text(case))):
+			continue
+		return e
 	return None
 
 
@@ -329,7 +338,7 @@ def run_check(modname: str, tier: str, replay_path: str | None = None) -> int:
 				return EXIT_HARNESS
 			replayed += 1
 			for sig, detail in fails:
-				k = match_known(known, sig)
+				k = match_known(known, sig, rep['case'])
 				if k is None:
 					violations.append({'sig': sig, 'detail': detail, 'case': rep['case'], 'path': path})
 
@@ -343,8 +352,8 @@ def run_check(modname: str, tier: str, replay_path: str | None = None) -> int:
 				print('HARNESS-ERROR: known-finding probe raised for', e.get('id'))
 				traceback.print_exc()
 				return EXIT_HARNESS
-			hit = [f for f in fails if match_known([e], f[0])]
-			other = [f for f in fails if not match_known(known, f[0])]
+			hit = [f for f in fails if match_known([e], f[0], e['reproducer'])]
+			other = [f for f in fails if not match_known(known, f[0], e['reproducer'])]
 			if hit:
 				line = f"KNOWN-FINDING: property={prop} {e['id']}: {e['description']}"
 				known_lines.append(line)
@@ -376,7 +385,7 @@ def run_check(modname: str, tier: str, replay_path: str | None = None) -> int:
 
 		shrunk = 0
 		for sig, f in sorted(merged['failures'].items()):
-			k = match_known(known, sig)
+			k = match_known(known, sig, f.get('case'))
 			if k is not None:
 				line = f"KNOWN-FINDING: property={prop} {k['id']}: {k['description']} (x{f['count']} in campaign)"
 				if not any(l.startswith(f"KNOWN-FINDING: property={prop} {k['id']}:") for l in known_lines):
@@ -391,7 +400,7 @@ def run_check(modname: str, tier: str, replay_path: str | None = None) -> int:
 						f = small
 				except Exception:
 					traceback.print_exc()
-				k = match_known(known, f['sig'])  # the minimised case may turn out to be a listed finding
+				k = match_known(known, f['sig'], f.get('case'))  # the minimised case may turn out to be a listed finding
 				if k is not None:
 					line = f"KNOWN-FINDING: property={prop} {k['id']}: {k['description']} (x{f['count']} in campaign)"
 					if not any(l.startswith(f"KNOWN-FINDING: property={prop} {k['id']}:") for l in known_lines):
